@@ -1,0 +1,274 @@
+//go:build verif
+
+package monoid
+
+// Contracts for package monoid, checked by /verif/govc.  Comment-only file.
+
+//@ import "github.com/csgura/fp/internal/veriflaws"
+//@ import "github.com/csgura/fp/hlist"
+//@ import "github.com/csgura/fp/lazy"
+//
+//@ lemma allDef(a bool, b bool, c bool)
+//@   prop C11
+//@   ensures Eq(All.Combine(a, b), a && b)
+//@   tag conjunction
+//@   ensures Eq(All.Empty(), true)
+//@   ensures Eq(All.Combine(All.Combine(a, b), c), All.Combine(a, All.Combine(b, c)))
+//@   tag assoc
+//@   ensures Eq(All.Combine(All.Empty(), a), a)
+//@   tag leftId
+//@   ensures Eq(All.Combine(a, All.Empty()), a)
+//@   tag rightId
+//
+//@ lemma anyDef(a bool, b bool, c bool)
+//@   prop C11
+//@   ensures Eq(Any.Combine(a, b), a || b)
+//@   tag disjunction
+//@   ensures Eq(Any.Empty(), false)
+//@   ensures Eq(Any.Combine(Any.Combine(a, b), c), Any.Combine(a, Any.Combine(b, c)))
+//@   tag assoc
+//@   ensures Eq(Any.Combine(Any.Empty(), a), a)
+//@   tag leftId
+//@   ensures Eq(Any.Combine(a, Any.Empty()), a)
+//@   tag rightId
+//
+//@ lemma sumDef[T fp.ImplicitOrd](a T, b T, c T)
+//@   prop C11
+//@   inst int64
+//@   ensures Eq(Sum[T]().Combine(a, b), a + b)
+//@   tag adds
+//@   ensures Eq(Sum[T]().Empty(), T(0))
+//@   tag zero
+//@   ensures Eq(Sum[T]().Combine(Sum[T]().Combine(a, b), c), Sum[T]().Combine(a, Sum[T]().Combine(b, c)))
+//@   tag assoc
+//@   ensures Eq(Sum[T]().Combine(Sum[T]().Empty(), a), a)
+//@   tag leftId
+//@   ensures Eq(Sum[T]().Combine(a, Sum[T]().Empty()), a)
+//@   tag rightId
+//
+//@ lemma productDef[T fp.ImplicitNum](a T, b T, c T)
+//@   prop C11
+//@   inst int64
+//@   ensures Eq(Product[T]().Combine(a, b), a * b)
+//@   tag multiplies
+//@   ensures Eq(Product[T]().Empty(), T(1))
+//@   tag one
+//@   ensures Eq(Product[T]().Combine(Product[T]().Combine(a, b), c), Product[T]().Combine(a, Product[T]().Combine(b, c)))
+//@   tag assoc
+//@   ensures Eq(Product[T]().Combine(Product[T]().Empty(), a), a)
+//@   tag leftId
+//@   ensures Eq(Product[T]().Combine(a, Product[T]().Empty()), a)
+//@   tag rightId
+//
+//@ lemma endoDef[T any](f fp.Endo[T], g fp.Endo[T], h fp.Endo[T], x T)
+//@   prop C11
+//@   ensures Eq(Endo[T]().Combine(f, g)(x), f(g(x)))
+//@   tag composes
+//@   ensures Eq(Endo[T]().Empty()(x), x)
+//@   tag identity
+//@   ensures Eq(Endo[T]().Combine(Endo[T]().Combine(f, g), h), Endo[T]().Combine(f, Endo[T]().Combine(g, h)))
+//@   tag assoc
+//@   ensures Eq(Endo[T]().Combine(Endo[T]().Empty(), f), f)
+//@   tag leftId
+//@   ensures Eq(Endo[T]().Combine(f, Endo[T]().Empty()), f)
+//@   tag rightId
+//
+//@ lemma dualDef[T any](m fp.Monoid[T], a fp.Dual[T], b fp.Dual[T], c fp.Dual[T])
+//@   prop C11
+//@   ensures Eq(Dual(m).Combine(a, b), fp.Dual[T]{GetDual: m.Combine(b.GetDual, a.GetDual)})
+//@   tag flips
+//@   ensures Eq(Dual(m).Empty(), fp.Dual[T]{GetDual: m.Empty()})
+//@   tag empty
+//
+//@ lemma dualLaws[T any](m fp.Monoid[T], a fp.Dual[T], b fp.Dual[T], c fp.Dual[T])
+//@   prop C11
+//@   requires veriflaws.MonoidLaws(m)
+//@   ensures Eq(Dual(m).Combine(Dual(m).Combine(a, b), c), Dual(m).Combine(a, Dual(m).Combine(b, c)))
+//@   tag assoc
+//@   ensures Eq(Dual(m).Combine(Dual(m).Empty(), a), a)
+//@   tag leftId
+//@   ensures Eq(Dual(m).Combine(a, Dual(m).Empty()), a)
+//@   tag rightId
+//
+//@ lemma optionDef[T any](m fp.Monoid[T], x T, y T, o fp.Option[T])
+//@   prop C11
+//@   ensures Eq(Option(m).Combine(fp.Some(x), fp.Some(y)), fp.Some(m.Combine(x, y)))
+//@   tag someSome
+//@   ensures Eq(Option(m).Combine(fp.None[T](), o), fp.None[T]())
+//@   tag noneLeft
+//@   ensures Eq(Option(m).Combine(o, fp.None[T]()), fp.None[T]())
+//@   tag noneRight
+//@   ensures Eq(Option(m).Empty(), fp.Some(m.Empty()))
+//@   tag empty
+//
+//@ lemma optionLaws[T any](m fp.Monoid[T], a fp.Option[T], b fp.Option[T], c fp.Option[T])
+//@   prop C11
+//@   requires veriflaws.MonoidLaws(m)
+//@   ensures Eq(Option(m).Combine(Option(m).Combine(a, b), c), Option(m).Combine(a, Option(m).Combine(b, c)))
+//@   tag assoc
+//@   ensures Eq(Option(m).Combine(Option(m).Empty(), a), a)
+//@   tag leftId
+//@   ensures Eq(Option(m).Combine(a, Option(m).Empty()), a)
+//@   tag rightId
+//
+//@ lemma tryDef[T any](m fp.Monoid[T], x T, y T, e error, t fp.Try[T])
+//@   prop C11
+//@   ensures Eq(Try(m).Combine(fp.Success(x), fp.Success(y)), fp.Success(m.Combine(x, y)))
+//@   tag successSuccess
+//@   ensures e != nil ==> Eq(Try(m).Combine(fp.Failure[T](e), t), fp.Failure[T](e))
+//@   tag failureLeft
+//@   ensures e != nil ==> Eq(Try(m).Combine(fp.Success(x), fp.Failure[T](e)), fp.Failure[T](e))
+//@   tag failureRight
+//@   ensures Eq(Try(m).Empty(), fp.Success(m.Empty()))
+//@   tag empty
+//
+//@ lemma tryLaws[T any](m fp.Monoid[T], a fp.Try[T], b fp.Try[T], c fp.Try[T])
+//@   prop C11
+//@   requires veriflaws.MonoidLaws(m)
+//@   ensures Eq(Try(m).Combine(Try(m).Combine(a, b), c), Try(m).Combine(a, Try(m).Combine(b, c)))
+//@   tag assoc
+//@   ensures Eq(Try(m).Combine(Try(m).Empty(), a), a)
+//@   tag leftId
+//@   ensures Eq(Try(m).Combine(a, Try(m).Empty()), a)
+//@   tag rightId
+//
+//@ schema N=2..21
+//@ lemma tuple{N}Def[<<i=1..N|, |A$i>> any](<<i=1..N|, |m$i fp.Monoid[A$i]>>, a fp.Tuple{N}[<<i=1..N|, |A$i>>], b fp.Tuple{N}[<<i=1..N|, |A$i>>])
+//@   prop C11
+//@   ensures Eq(Tuple{N}(<<i=1..N|, |m$i>>).Combine(a, b), fp.Tuple{N}[<<i=1..N|, |A$i>>]{<<i=1..N|, |I$i: m$i.Combine(a.I$i, b.I$i)>>})
+//@   tag componentwise
+//@   ensures Eq(Tuple{N}(<<i=1..N|, |m$i>>).Empty(), fp.Tuple{N}[<<i=1..N|, |A$i>>]{<<i=1..N|, |I$i: m$i.Empty()>>})
+//@   tag empty
+//
+//@ lemma tuple{N}Laws[<<i=1..N|, |A$i>> any](<<i=1..N|, |m$i fp.Monoid[A$i]>>, a fp.Tuple{N}[<<i=1..N|, |A$i>>], b fp.Tuple{N}[<<i=1..N|, |A$i>>], c fp.Tuple{N}[<<i=1..N|, |A$i>>])
+//@   prop C11
+//@   requires <<i=1..N| && |veriflaws.MonoidLaws(m$i)>>
+//@   ensures Eq(Tuple{N}(<<i=1..N|, |m$i>>).Combine(Tuple{N}(<<i=1..N|, |m$i>>).Combine(a, b), c), Tuple{N}(<<i=1..N|, |m$i>>).Combine(a, Tuple{N}(<<i=1..N|, |m$i>>).Combine(b, c)))
+//@   tag assoc
+//@   ensures Eq(Tuple{N}(<<i=1..N|, |m$i>>).Combine(Tuple{N}(<<i=1..N|, |m$i>>).Empty(), a), a)
+//@   tag leftId
+//@   ensures Eq(Tuple{N}(<<i=1..N|, |m$i>>).Combine(a, Tuple{N}(<<i=1..N|, |m$i>>).Empty()), a)
+//@   tag rightId
+//@ schema end
+//
+//@ lemma stringDef(a string, b string, c string)
+//@   prop C11
+//@   ensures Eq(String.Combine(a, b), a + b)
+//@   tag concatenates
+//@   ensures Eq(String.Empty(), "")
+//@   tag empty
+//@   ensures Eq(String.Combine(String.Combine(a, b), c), String.Combine(a, String.Combine(b, c)))
+//@   tag assoc
+//@   ensures Eq(String.Combine(String.Empty(), a), a)
+//@   tag leftId
+//@   ensures Eq(String.Combine(a, String.Empty()), a)
+//@   tag rightId
+//
+//@ lemma unitDef(a fp.Unit, b fp.Unit, c fp.Unit)
+//@   prop C11
+//@   ensures Eq(Unit.Combine(a, b), fp.Unit{})
+//@   ensures Eq(Unit.Empty(), fp.Unit{})
+//@   ensures Eq(Unit.Combine(Unit.Combine(a, b), c), Unit.Combine(a, Unit.Combine(b, c)))
+//@   tag assoc
+//@   ensures Eq(Unit.Combine(Unit.Empty(), a), a)
+//@   tag leftId
+//@   ensures Eq(Unit.Combine(a, Unit.Empty()), a)
+//@   tag rightId
+//
+//@ lemma hnilDef(a hlist.Nil, b hlist.Nil, c hlist.Nil)
+//@   prop C11
+//@   ensures Eq(HNil.Combine(a, b), hlist.Nil{})
+//@   ensures Eq(HNil.Empty(), hlist.Nil{})
+//@   ensures Eq(HNil.Combine(HNil.Combine(a, b), c), HNil.Combine(a, HNil.Combine(b, c)))
+//@   tag assoc
+//@   ensures Eq(HNil.Combine(HNil.Empty(), a), a)
+//@   tag leftId
+//@   ensures Eq(HNil.Combine(a, HNil.Empty()), a)
+//@   tag rightId
+//
+//@ lemma hconsDef[H any, T hlist.HList](hm fp.Monoid[H], tm fp.Monoid[T], a hlist.Cons[H, T], b hlist.Cons[H, T])
+//@   prop C11
+//@   ensures Eq(HCons(hm, tm).Combine(a, b), hlist.Concat(hm.Combine(hlist.Head(a), hlist.Head(b)), tm.Combine(hlist.Tail(a), hlist.Tail(b))))
+//@   tag componentwise
+//@   ensures Eq(HCons(hm, tm).Empty(), hlist.Concat(hm.Empty(), tm.Empty()))
+//@   tag empty
+//
+//@ lemma hconsLaws[H any, T hlist.HList](hm fp.Monoid[H], tm fp.Monoid[T], a hlist.Cons[H, T], b hlist.Cons[H, T], c hlist.Cons[H, T])
+//@   prop C11
+//@   requires veriflaws.MonoidLaws(hm) && veriflaws.MonoidLaws(tm)
+//@   ensures Eq(HCons(hm, tm).Combine(HCons(hm, tm).Combine(a, b), c), HCons(hm, tm).Combine(a, HCons(hm, tm).Combine(b, c)))
+//@   tag assoc
+//@   ensures Eq(HCons(hm, tm).Combine(HCons(hm, tm).Empty(), a), a)
+//@   tag leftId
+//@   ensures Eq(HCons(hm, tm).Combine(a, HCons(hm, tm).Empty()), a)
+//@   tag rightId
+//
+//@ lemma hconsNilLaws[H any](hm fp.Monoid[H], a hlist.Cons[H, hlist.Nil], b hlist.Cons[H, hlist.Nil], c hlist.Cons[H, hlist.Nil])
+//@   prop C11
+//@   requires veriflaws.MonoidLaws(hm)
+//@   ensures Eq(HCons(hm, HNil).Combine(HCons(hm, HNil).Combine(a, b), c), HCons(hm, HNil).Combine(a, HCons(hm, HNil).Combine(b, c)))
+//@   tag assoc
+//@   ensures Eq(HCons(hm, HNil).Combine(HCons(hm, HNil).Empty(), a), a)
+//@   tag leftId
+//@   ensures Eq(HCons(hm, HNil).Combine(a, HCons(hm, HNil).Empty()), a)
+//@   tag rightId
+//
+//@ lemma imapDef[A, B any](m fp.Monoid[A], fab func(A) B, fba func(B) A, x B, y B)
+//@   prop C11
+//@   ensures Eq(IMap(m, fab, fba).Combine(x, y), fab(m.Combine(fba(x), fba(y))))
+//@   tag transports
+//@   ensures Eq(IMap(m, fab, fba).Empty(), fab(m.Empty()))
+//@   tag empty
+//
+//@ lemma imapLaws[A, B any](m fp.Monoid[A], fab func(A) B, fba func(B) A, x B, y B, z B)
+//@   prop C11
+//@   requires veriflaws.MonoidLaws(m)
+//@   requires forall a A :: Eq(fba(fab(a)), a)
+//@   requires forall b B :: Eq(fab(fba(b)), b)
+//@   ensures Eq(IMap(m, fab, fba).Combine(IMap(m, fab, fba).Combine(x, y), z), IMap(m, fab, fba).Combine(x, IMap(m, fab, fba).Combine(y, z)))
+//@   tag assoc
+//@   ensures Eq(IMap(m, fab, fba).Combine(IMap(m, fab, fba).Empty(), x), x)
+//@   tag leftId
+//@   ensures Eq(IMap(m, fab, fba).Combine(x, IMap(m, fab, fba).Empty()), x)
+//@   tag rightId
+//
+//@ lemma ptrDef[T any](m fp.Monoid[T], a *T, b *T)
+//@   prop C11
+//@   ensures Eq(Ptr(lazy.Done(m)).Empty(), (*T)(nil))
+//@   tag empty
+//@   ensures Eq(Ptr(lazy.Done(m)).Combine(nil, b), b)
+//@   tag nilLeft
+//@   ensures Eq(Ptr(lazy.Done(m)).Combine(a, nil), a)
+//@   tag nilRight
+//@   ensures a != nil && b != nil ==> Ptr(lazy.Done(m)).Combine(a, b) != nil && Eq(*Ptr(lazy.Done(m)).Combine(a, b), m.Combine(*a, *b))
+//@   tag bothPresent
+//
+//@ lemma evalDef[T any](m fp.Monoid[T], x T, y T)
+//@   prop C11
+//@   ensures Eq(Eval(m).Empty().Get(), m.Empty())
+//@   tag empty
+//@   ensures Eq(Eval(m).Combine(lazy.Done(x), lazy.Done(y)).Get(), m.Combine(x, y))
+//@   tag combinesValues
+//
+//@ lemma evalLaws[T any](m fp.Monoid[T], x T, y T, z T)
+//@   prop C11
+//@   requires veriflaws.MonoidLaws(m)
+//@   ensures Eq(Eval(m).Combine(Eval(m).Combine(lazy.Done(x), lazy.Done(y)), lazy.Done(z)).Get(), Eval(m).Combine(lazy.Done(x), Eval(m).Combine(lazy.Done(y), lazy.Done(z))).Get())
+//@   tag assoc
+//@   ensures Eq(Eval(m).Combine(Eval(m).Empty(), lazy.Done(x)).Get(), x)
+//@   tag leftId
+//@   ensures Eq(Eval(m).Combine(lazy.Done(x), Eval(m).Empty()).Get(), x)
+//@   tag rightId
+//
+//@ lemma ptrLaws[T any](m fp.Monoid[T], a *T, b *T, c *T)
+//@   prop C11
+//@   requires veriflaws.MonoidLaws(m)
+//@   ensures (Ptr(lazy.Done(m)).Combine(Ptr(lazy.Done(m)).Combine(a, b), c) == nil) == (Ptr(lazy.Done(m)).Combine(a, Ptr(lazy.Done(m)).Combine(b, c)) == nil)
+//@   tag assocNil
+//@   ensures Ptr(lazy.Done(m)).Combine(Ptr(lazy.Done(m)).Combine(a, b), c) != nil ==>
+//@     Eq(*Ptr(lazy.Done(m)).Combine(Ptr(lazy.Done(m)).Combine(a, b), c), *Ptr(lazy.Done(m)).Combine(a, Ptr(lazy.Done(m)).Combine(b, c)))
+//@   tag assocTarget
+//@   ensures Eq(Ptr(lazy.Done(m)).Combine(Ptr(lazy.Done(m)).Empty(), a), a)
+//@   tag leftId
+//@   ensures Eq(Ptr(lazy.Done(m)).Combine(a, Ptr(lazy.Done(m)).Empty()), a)
+//@   tag rightId
